@@ -46,6 +46,9 @@ type Contract struct {
 
 // clauseMode: the VC mode a clause is written for.
 func (c *Contract) clauseMode(cl *Clause) string {
+	if cl.Mode == "any" {
+		return curModeName() // mode-neutral clause: compiled in whatever mode the current VC uses
+	}
 	if cl.Mode != "" {
 		return cl.Mode
 	}
@@ -65,6 +68,9 @@ func (c *Contract) modes() []string {
 	other := map[string]bool{}
 	for _, lst := range [][]*Clause{c.Requires, c.Ensures, c.PanicsIf} {
 		for _, cl := range lst {
+			if cl.Mode == "any" {
+				continue
+			}
 			if m := c.clauseMode(cl); m != own {
 				other[m] = true
 			}
@@ -176,7 +182,9 @@ func (e *Engine) loadContractFile(path string, pkg *ssa.Package) error {
 			cl.Mode, cl.Label = "bv", cl.Label[3:]
 		} else if strings.HasPrefix(cl.Label, "int:") {
 			cl.Mode, cl.Label = "int", cl.Label[4:]
-		} else if cl.Label == "bv" || cl.Label == "int" {
+		} else if strings.HasPrefix(cl.Label, "any:") {
+			cl.Mode, cl.Label = "any", cl.Label[4:]
+		} else if cl.Label == "bv" || cl.Label == "int" || cl.Label == "any" {
 			cl.Mode, cl.Label = cl.Label, ""
 		}
 		return cl, nil
@@ -415,4 +423,11 @@ func (e *Engine) loadExtraContracts(dir string) error {
 		}
 	}
 	return nil
+}
+
+func curModeName() string {
+	if genIntMode {
+		return "int"
+	}
+	return "bv"
 }
